@@ -3,6 +3,7 @@
 From GN Require Import Common.Base Common.Int64 Model.VC Gen.BufferVC Gen.OtherVC Proofs.VCTactics Proofs.VCProofs
   Model.BufferTypes Gen.BufferMethods Model.Buffer Spec.BufferNumSpec Proofs.BufferGuards Proofs.BufferNumRefine Proofs.BufferNumExtra
   Model.Codecs Gen.BufferCodecs Model.BufferStrings Spec.BufferStringsSpec Proofs.BufferStringsProofs.
+From GN Require Import Gen.UtilFormat Model.ConsoleSrc.
 From Coq Require Import String.
 From GN Require Import Model.BufferSrc.
 Open Scope Z_scope.
@@ -63,3 +64,9 @@ Print Assumptions C09_toString_never_traps.
 Theorem C09_strings_source_tie : buffer_strings_src = expected_buffer_strings_src.
 Proof. vm_compute. reflexivity. Qed.
 Print Assumptions C09_strings_source_tie.
+
+(* every function of console/module.go and util/module.go (what is created per runtime, what is looked up at call time) has
+   the text the model and the claims of this property were written against (regenerated from the source on every run) *)
+Theorem C09_console_util_source_tie : console_util_src = expected_console_util_src.
+Proof. vm_compute. reflexivity. Qed.
+Print Assumptions C09_console_util_source_tie.
